@@ -138,6 +138,8 @@ enum H {
     WeakAddr(WeakAddr<Probe>),
     WeakSender(WeakSender<U>),
     WeakCaller(WeakCaller<M>),
+    /// a `Sender::send` future that was created by `prepare_send` and is awaited later by `prepared_send`
+    Prepared(Pin<Box<dyn Future<Output = hannibal::error::Result<()>> + Send>>),
 }
 
 type OpFut = Pin<Box<dyn Future<Output = String>>>;
@@ -384,6 +386,19 @@ fn start_op(handles: &std::rc::Rc<std::cell::RefCell<HashMap<String, H>>>, op: &
                 let f = s.send(U(a2));
                 Started::Fut(Box::pin(async move { fmt_unit(&f.await) }))
             }
+            _ => panic!(),
+        },
+        "prepare_send" => match hs.get(&a1) {
+            Some(H::Sender(s)) => {
+                let f = s.send(U(a2));
+                let slot = op.get(3).cloned().unwrap_or_default();
+                hs.insert(slot.clone(), H::Prepared(f));
+                Started::Done(slot)
+            }
+            _ => panic!(),
+        },
+        "prepared_send" => match hs.remove(&a1) {
+            Some(H::Prepared(f)) => Started::Fut(Box::pin(async move { fmt_unit(&f.await) })),
             _ => panic!(),
         },
         "caller_call" => match hs.get(&a1) {
